@@ -35,10 +35,10 @@ let sret = function
   | RHuge -> "HUGE"
   | RPtr b -> if b then "ok" else "null"
   | RCal (name, ty, rows, cols, nf, fmin, fmax) ->
-    (* a calibration without frequency points has no fmin / fmax (the getters return HUGE_VAL): the fields of
-       the model's record are not used, both sides print nofreq:nofreq *)
-    if iz nf = 0 then Printf.sprintf "c%d:%d:%d:%d:%d:nofreq:nofreq" (iz name) (iz ty) (iz rows) (iz cols) (iz nf)
-    else Printf.sprintf "c%d:%d:%d:%d:%d:%d:%d" (iz name) (iz ty) (iz rows) (iz cols) (iz nf) (64 * iz fmin) (64 * iz fmax)
+    (* CalTabModel.frange_opt: None = both getters answer HUGE_VAL / EINVAL (no frequency points) *)
+    (match frange_opt nf fmin fmax with
+     | None -> Printf.sprintf "c%d:%d:%d:%d:%d:nofreq:nofreq" (iz name) (iz ty) (iz rows) (iz cols) (iz nf)
+     | Some (a, b) -> Printf.sprintf "c%d:%d:%d:%d:%d:%d:%d" (iz name) (iz ty) (iz rows) (iz cols) (iz nf) (64 * iz a) (64 * iz b))
   | RTok None -> "none"
   | RTok (Some k) -> string_of_int (iz k)
   | RNoSuch -> "nosuch"
@@ -56,13 +56,14 @@ let digest (s : state) =
     List.iteri (fun ci c -> match c with
         | None -> ()
         | Some c ->
-          if iz c.c_nf = 0 then
-            Buffer.add_string b (Printf.sprintf "%d:c%d:%d:%d:%d:%d:nofreq:nofreq:%s;" ci (iz c.c_name) (iz c.c_type)
-                                   (iz c.c_rows) (iz c.c_cols) (iz c.c_nf) (stok c.c_prop))
-          else
-            Buffer.add_string b (Printf.sprintf "%d:c%d:%d:%d:%d:%d:%d:%d:%s;" ci (iz c.c_name) (iz c.c_type)
-                                   (iz c.c_rows) (iz c.c_cols) (iz c.c_nf) (64 * iz c.c_fmin) (64 * iz c.c_fmax)
-                                   (stok c.c_prop))) cals;
+          (match cal_frange c with
+           | None ->
+             Buffer.add_string b (Printf.sprintf "%d:c%d:%d:%d:%d:%d:nofreq:nofreq:%s;" ci (iz c.c_name) (iz c.c_type)
+                                    (iz c.c_rows) (iz c.c_cols) (iz c.c_nf) (stok c.c_prop))
+           | Some (fa, fb) ->
+             Buffer.add_string b (Printf.sprintf "%d:c%d:%d:%d:%d:%d:%d:%d:%s;" ci (iz c.c_name) (iz c.c_type)
+                                    (iz c.c_rows) (iz c.c_cols) (iz c.c_nf) (64 * iz fa) (64 * iz fb)
+                                    (stok c.c_prop)))) cals;
     let t = s.st_pt in
     Buffer.add_string b (Printf.sprintf "] G=%s W=%d:%d:%d:%d P=[" (stok s.st_gprop) (List.length t.pt_slots)
                            (int_of_nat t.pt_count) (int_of_nat t.pt_first_free) (List.length cals));
